@@ -280,6 +280,56 @@ def _limiter(tree: ast.Module, res: ast.ClassDef) -> tuple[bool, float]:
     return bool(ok and built), window
 
 
+def _allowlist_shape(tree: ast.Module, ftree: ast.Module) -> tuple[str, str, bool, bool]:
+    """``_normalise_principals``: ``allowed = frozenset(<elem> for p in principals or () [if <cond>])``, ``if not allowed: raise ValueError``,
+    ``return allowed``  ->  (element transform, filter, raises-when-empty, the factory passes the result to the resource unchanged)."""
+    fn = _meth(tree, "_normalise_principals")
+    body = _body(fn)
+    if len(body) != 3:
+        raise Unsupported("_normalise_principals: statement count")
+    a, chk, ret = body
+    if not (isinstance(a, ast.Assign) and _u(a.targets[0]) == "allowed" and isinstance(a.value, ast.Call) and _u(a.value.func) == "frozenset"
+            and len(a.value.args) == 1 and isinstance(a.value.args[0], ast.GeneratorExp)):
+        raise Unsupported("_normalise_principals: allowed = frozenset(<generator>)")
+    g = a.value.args[0]
+    if len(g.generators) != 1 or _u(g.generators[0].iter) != "principals or ()" or not isinstance(g.generators[0].target, ast.Name):
+        raise Unsupported("_normalise_principals: generator source")
+    v = g.generators[0].target.id
+    forms = {v: "identity", f"{v}.strip()": "strip"}
+    if _u(g.elt) not in forms:
+        raise Unsupported(f"_normalise_principals: element {_u(g.elt)}")
+    elem = forms[_u(g.elt)]
+    ifs = g.generators[0].ifs
+    if not ifs:
+        flt = "none"
+    elif len(ifs) == 1 and _u(ifs[0]) in forms:
+        flt = {"identity": "raw", "strip": "stripped"}[forms[_u(ifs[0])]]
+    else:
+        raise Unsupported("_normalise_principals: filter")
+    raises = isinstance(chk, ast.If) and _u(chk.test) == "not allowed" and not chk.orelse and len(chk.body) == 1 \
+        and isinstance(chk.body[0], ast.Raise) and _u(chk.body[0].exc).startswith("ValueError(")
+    if _u(ret) != "return allowed":
+        raise Unsupported("_normalise_principals: return")
+    wired = False
+    for n in ast.walk(ftree):
+        if isinstance(n, ast.Assign) and _u(n.targets[0]) == "_introspect_principals" and _u(n.value) == "_normalise_principals(introspect_principals)":
+            wired = True
+    return elem, flt, bool(raises), wired
+
+
+def _space_ranges() -> list[tuple[int, int]]:
+    out: list[list[int]] = []
+    for cp in range(sys.maxunicode + 1):
+        if 0xD800 <= cp <= 0xDFFF:
+            continue
+        if chr(cp).isspace():
+            if out and out[-1][1] == cp - 1:
+                out[-1][1] = cp
+            else:
+                out.append([cp, cp])
+    return [(a, b) for a, b in out]
+
+
 def _fingerprint(*nodes: ast.AST) -> str:
     return hashlib.sha256("\n".join(ast.dump(n, annotate_fields=False) for n in nodes).encode()).hexdigest()[:16]
 
@@ -327,13 +377,15 @@ def emit() -> dict[str, str]:
                                      "if introspect_resolver is not None else _IntrospectionDisabledResource()"
             )
 
+    al_elem, al_filter, al_raises, al_wired = _allowlist_shape(tree, ftree)
+    spaces = ", ".join(f"({a}, {b})" for a, b in _space_ranges())
     limiter_ok, window = _limiter(tree, res)
     ticks = window * 1024
     if ticks != int(ticks):
         raise Unsupported("limiter window is not a multiple of 1/1024 s")
     rx = mod._JWS_SHAPED
     pat = pattern_to_lean(rx.pattern, rx.flags)
-    fp = _fingerprint(on_post, _meth(res, "_read_token"), _meth(res, "_refuse"), dis, _cls(tree, "_RateLimiter"))
+    fp = _fingerprint(on_post, _meth(res, "_read_token"), _meth(res, "_refuse"), dis, _cls(tree, "_RateLimiter"), _meth(tree, "_normalise_principals"))
     nl = ",\n  "
     body = f"""import VgiVerif.Prelude.Regex
 namespace VgiVerif.Gen.C36
@@ -398,6 +450,17 @@ def limiterShapeOk : Bool := {str(limiter_ok).lower()}
 
 /-- the limiter window in ticks of 1/1024 s (`window_seconds` default) -/
 def limiterWindowTicks : Int := {int(ticks)}
+
+/-- `_normalise_principals`: `frozenset(<allowElem>(p) for p in principals or () if <allowFilter>(p))`:
+allowElem "identity" | "strip";  allowFilter "raw" (`if p`) | "stripped" (`if p.strip()`) | "none" -/
+def allowElem : String := "{al_elem}"
+def allowFilter : String := "{al_filter}"
+/-- an allow-list that normalises to nothing raises `ValueError` at construction (no permissive default) -/
+def allowEmptyRaises : Bool := {str(al_raises).lower()}
+/-- `make_wsgi_app` hands `_normalise_principals(introspect_principals)` to the resource -/
+def allowWired : Bool := {str(al_wired).lower()}
+/-- code points for which `str.isspace()` holds in this interpreter (what `str.strip()` removes) -/
+def spaceRanges : List (Nat × Nat) := [{spaces}]
 
 /-- fingerprint of the modelled functions (a change shows up as drift and raises the search budget) -/
 def sourceFingerprint : String := "{fp}"
